@@ -778,6 +778,8 @@ class Engine:
         if it_name:
             extra0 = {it_name: lo, 'i_': lo}
         for c in inv + inv_default:
+            if c.label.startswith('A-'):
+                continue        # stated assumption (e.g. A-nan): assumed at the loop head, never discharged
             v = self.eval_clause(c, entry, fr.old, extra0)
             self.oblige(entry, v, 'inv-init', c.label, c.tags, s.lineno, site=ordinal)
         # havoc
@@ -835,6 +837,8 @@ class Engine:
                 nxt = x.env[it_name] + 1 if isint(x.env.get(it_name)) else fint('i')
                 extra = {it_name: nxt, 'i_': nxt}
             for c in inv + inv_default:
+                if c.label.startswith('A-'):
+                    continue
                 v = self.eval_clause(c, x, fr.old, extra)
                 self.oblige(x, v, 'inv-preserve', c.label, c.tags, ln, site='%s.%s' % (ordinal, blab), meta={'backedge_line': ln})
         ctl.ret += inner.ret
